@@ -268,6 +268,60 @@ func (g *detGen) cmd() []string {
 	}
 }
 
+// dense returns a command of a batch-dense log: mostly the batchable writes (set, setex,
+// single-key del, hmset) on few keys, so that batches form, get cut before repeated keys and
+// around non-batchable commands.  With failing=true it also produces batchable commands that
+// pass the leader-side checks but fail in the apply handler (isolate stage of finding
+// C07-batch-abort-on-apply-error).
+func (g *detGen) dense(failing bool) []string {
+	if failing && g.rng.Intn(12) == 0 {
+		return g.failingBatchable()
+	}
+	return g.denseValid()
+}
+
+func (g *detGen) failingBatchable() []string {
+	kv := func() string { return g.k("ka", "kb", "kc") }
+	h := func() string { return g.k("ha", "hb", "ka") }
+	{
+		switch g.rng.Intn(4) {
+		case 0:
+			return []string{"setex", kv(), "notnum", g.val()}
+		case 1:
+			return []string{"setex", kv(), g.pick("0", "-3"), g.val()}
+		case 2:
+			return []string{"hmset", h(), strings.Repeat("F", 1100), g.val()}
+		default:
+			return []string{"set", kv(), strings.Repeat("V", 1024*1024+10)}
+		}
+	}
+}
+
+func (g *detGen) denseValid() []string {
+	kv := func() string { return g.k("ka", "kb", "kc", "kd", "ke") }
+	h := func() string { return g.k("ha", "hb", "ka") }
+	switch r := g.rng.Intn(20); {
+	case r < 6:
+		return []string{"set", kv(), g.val()}
+	case r < 9:
+		return []string{"setex", kv(), g.dur(), g.val()}
+	case r < 12:
+		return []string{"del", kv()}
+	case r < 15:
+		return []string{"hmset", h(), g.sub(detFields...), g.val(), g.sub(detFields...), g.val()}
+	case r < 16:
+		return []string{"del", kv(), kv()}
+	case r < 17:
+		return []string{"incr", g.k("ia", "ka")}
+	case r < 18:
+		return []string{"getset", kv(), g.val()}
+	case r < 19:
+		return []string{"hset", h(), g.sub(detFields...), g.val()}
+	default:
+		return []string{"set", kv(), g.val(), g.pick("nx", "xx")}
+	}
+}
+
 func detAllKeys() detKeys {
 	p := func(names ...string) []string {
 		out := make([]string, len(names))
@@ -277,24 +331,41 @@ func detAllKeys() detKeys {
 		return out
 	}
 	return detKeys{
-		KV: p("ka", "kb", "kc", "ia", "ib"), Bit: p("ba", "bb"),
+		KV: p("ka", "kb", "kc", "kd", "ke", "ia", "ib"), Bit: p("ba", "bb"),
 		HLL:  []string{detHLLTable + ":pa", detHLLTable + ":pb"},
-		JSON: p("ja", "jb"), Hash: p("ha", "hb"), List: p("la", "lb"), Set: p("sa", "sb"),
+		JSON: p("ja", "jb"), Hash: p("ha", "hb", "ka"), List: p("la", "lb"), Set: p("sa", "sb"),
 		ZSet: p("za", "zb", "ga"),
 	}
 }
 
 func (g *detGen) log(n int) []detEntry {
+	return g.logKind(n, "general", false)
+}
+
+func (g *detGen) logKind(n int, kind string, failing bool) []detEntry {
 	out := make([]detEntry, 0, n)
 	for i := 0; i < n; i++ {
 		g.step()
+		if kind == "dense" && failing && i > 0 && i+3 < n && g.rng.Intn(8) == 0 {
+			// the trigger of finding C07-batch-abort-on-apply-error on purpose: two batchable writes
+			// on other keys in their own entries, then a batchable command that fails in its handler
+			out = append(out, detEntry{Ts: g.ts, Cmds: [][]string{{"set", g.k("kd"), g.val()}}})
+			out = append(out, detEntry{Ts: g.ts + 1, Cmds: [][]string{{"set", g.k("ke"), g.val()}}})
+			out = append(out, detEntry{Ts: g.ts + 2, Cmds: [][]string{g.failingBatchable()}})
+			i += 2
+			continue
+		}
 		e := detEntry{Ts: g.ts}
 		nc := 1
 		if g.rng.Intn(10) == 0 {
 			nc = 2 + g.rng.Intn(2)
 		}
 		for c := 0; c < nc; c++ {
-			e.Cmds = append(e.Cmds, g.cmd())
+			if kind == "dense" {
+				e.Cmds = append(e.Cmds, g.dense(failing))
+			} else {
+				e.Cmds = append(e.Cmds, g.cmd())
+			}
 		}
 		out = append(out, e)
 	}
@@ -514,10 +585,21 @@ func (r *detRunner) run(log []detEntry, policy string, c detCond, logical bool, 
 
 func detLogEvent(id int, kind, policy string, log []detEntry) trace.M {
 	cmds := 0
-	for _, e := range log {
+	names := []string{}
+	for i, e := range log {
 		cmds += len(e.Cmds)
+		for ci, c := range e.Cmds {
+			k := ""
+			if len(c) > 1 {
+				k = c[1]
+				if len(k) > 20 {
+					k = k[:20]
+				}
+			}
+			names = append(names, fmt.Sprintf("%d %s %s %d", i*100+ci, c[0], k, len(c)))
+		}
 	}
-	return trace.M{"ev": "log", "id": id, "kind": kind, "policy": policy, "n": len(log), "cmds": cmds}
+	return trace.M{"ev": "log", "id": id, "kind": kind, "policy": policy, "n": len(log), "cmds": cmds, "names": names}
 }
 
 func detDescribe(log []detEntry, base int64) []string {
@@ -609,6 +691,8 @@ func detsim(args []string) error {
 	straddleOnly := fs.String("straddle-only", "", "comma separated command names: restrict straddle probes to these (isolate stages)")
 	straddleSkip := fs.String("straddle-skip", "", "comma separated command names left out of straddle probes (recorded findings)")
 	varlenEvery := fs.Int("varlen", 3, "every n-th log uses variable-length/binary sub-keys and runs on pebble only (0: never)")
+	denseEvery := fs.Int("dense", 3, "every n-th log is batch-dense (0: never)")
+	failing := fs.Bool("failing", false, "batch-dense logs contain batchable commands that fail in the apply handler (isolate stage)")
 	fs.Parse(args)
 	detSilence()
 	rng := rand.New(rand.NewSource(*seed))
@@ -631,14 +715,18 @@ func detsim(args []string) error {
 		base := time.Now().Add(-2*time.Hour).UnixNano() + int64(li)*int64(10*time.Second)
 		g := &detGen{rng: rng, ts: base}
 		g.varlen = *varlenEvery > 0 && li%*varlenEvery == *varlenEvery-1
-		log := g.log(*llen)
+		kind := "general"
+		if *denseEvery > 0 && li%*denseEvery == 0 {
+			kind = "dense"
+			g.varlen = false
+		}
+		log := g.logKind(*llen, kind, *failing)
 		for _, e := range log {
 			for _, c := range e.Cmds {
 				fam[c[0]]++
 			}
 		}
 		le := engines
-		kind := "general"
 		if g.varlen {
 			le = []string{"pebble"}
 			kind = "varlen"
